@@ -8,7 +8,7 @@ manages polling based on target capacity and re-polls after work completion.
 from __future__ import annotations
 
 import logging
-from dataclasses import dataclass
+from dataclasses import dataclass, field
 from typing import TYPE_CHECKING
 
 from happysimulator.components.queue import QueueDeliverEvent, QueueNotifyEvent, QueuePollEvent
@@ -48,6 +48,12 @@ class QueueDriver(Entity):
     queue: Entity = None
     target: Entity = None
 
+    # A poll is "in flight" from the moment it is sent until the item it fetched has
+    # started at the target (or the queue answered that it had nothing). While one is
+    # in flight target.has_capacity() does not yet reflect it, so no second poll is sent.
+    _poll_in_flight: bool = field(default=False, init=False, repr=False)
+    _recheck: QueueNotifyEvent | None = field(default=None, init=False, repr=False)
+
     def downstream_entities(self) -> list[Entity]:
         result: list[Entity] = []
         if self.target is not None:
@@ -67,6 +73,7 @@ class QueueDriver(Entity):
         """Queue delivered one payload event; clone/retarget and re-emit."""
         if event.payload is None:
             logger.debug("[%s] Received empty delivery", self.name)
+            self._poll_in_flight = False
             return []
         logger.debug(
             "[%s] Received delivery: type=%s, forwarding to target",
@@ -76,24 +83,33 @@ class QueueDriver(Entity):
         return self._handle_work_payload(event.payload)
 
     def _handle_work_payload(self, payload: Event) -> list[Event]:
-        def schedule_poll(time: Instant):
-            if self.target.has_capacity():
-                logger.debug("[%s] Target has capacity, scheduling poll", self.name)
-                return QueuePollEvent(time=time, target=self.queue, requestor=self)
-            logger.debug("[%s] Target at capacity, deferring poll", self.name)
-            return None
-
         target_event = payload
         target_event.time = self.now
         target_event.target = self.target
-        target_event.add_completion_hook(schedule_poll)
-        return [target_event]
+        target_event.add_completion_hook(self._poll_if_ready)
+        # The payload keeps its original (older) sort index, so it is delivered to the
+        # target before this self-notification: by then the item has started, the
+        # target's capacity is up to date and the driver may ask for the next item.
+        self._recheck = QueueNotifyEvent(time=self.now, target=self, queue_entity=self.queue)
+        return [target_event, self._recheck]
 
-    def _handle_notify(self, _: QueueNotifyEvent) -> list[Event]:
-        """Queue has work available—poll if target has capacity."""
+    def _poll_if_ready(self, time: Instant) -> QueuePollEvent | None:
+        """Poll the queue if the target has capacity and no poll is already in flight."""
+        if self._poll_in_flight:
+            logger.debug("[%s] Poll already in flight, deferring poll", self.name)
+            return None
         if not self.target.has_capacity():
-            logger.debug("[%s] Notify received but target at capacity", self.name)
-            return []
+            logger.debug("[%s] Target at capacity, deferring poll", self.name)
+            return None
+        logger.debug("[%s] Target has capacity, scheduling poll", self.name)
+        self._poll_in_flight = True
+        return QueuePollEvent(time=time, target=self.queue, requestor=self)
 
-        logger.debug("[%s] Notify received, polling queue", self.name)
-        return [QueuePollEvent(time=self.now, target=self.queue, requestor=self)]
+    def _handle_notify(self, event: QueueNotifyEvent) -> list[Event]:
+        """Queue has work available—poll if target has capacity."""
+        if event is self._recheck:
+            # The item fetched by the last poll has started at the target.
+            self._recheck = None
+            self._poll_in_flight = False
+        poll = self._poll_if_ready(self.now)
+        return [poll] if poll is not None else []
